@@ -10,10 +10,10 @@ CLAIMS = {
    note="trusted: rustc MIR, std/dep models in analysis/models*.py, reference/pvm_spec.json; stacks deeper than D only via the window argument (DESIGN 3.4)", ref="4/C01"),
  "C02": dict(cat="model_checking", tech="MIR abstract interpretation, memo size classes {0,1,2,255,256,257}, index-term identity",
    text="For every PUT-family leaf the stored and emitted index equals len(memo) (fresh under the contiguous-key invariant) in every memo size class, the guard establishes a non-MARK top and the store is not skipped; every GET-family leaf in safe mode emits an index proved to be a memo key (element of the key list or guarded by contains_key) for unconstrained results of dyn Mutator::mutate_memo_index; the key parsed back by the simulation is the emitted term.",
-   note="assumes memo.len() < 2^32; mutator results are the join over all Mutator impls in the crate", ref="4/C02"),
+   note="assumes memo.len() < 2^32; mutator results are the join over all Mutator impls in the crate; shared premises are findings of this check too: fresh valid-opcode list per iteration, proto_emitted invariant, default configuration is safe mode, every emission is one well-formed opcode (O5)", ref="4/C02"),
  "C03": dict(cat="model_checking", tech="MIR abstract interpretation of guards and helper predicates vs. kind-level reference preconditions",
    text="Every enabled leaf of every kind-constrained opcode has materialised the required operand slots with StackObject variants that map into the class the reference machine requires (O2), helper predicates are interpreted not trusted; plus breadth-first enumeration of opcode-choice sequences from the empty stack with an independent concrete reference machine.",
-   note="kind classes and clauses come from reference/pvm_spec.json (C03 statement only)", ref="4/C03"),
+   note="kind classes and clauses come from reference/pvm_spec.json (C03 statement only); prerequisites checked here as well: kind/depth part of O3, memo-key identity, memo store count, O5, fresh valid-opcode list, proto_emitted invariant, default configuration is safe mode", ref="4/C03"),
  "C17": dict(cat="model_checking", tech="MIR abstract interpretation of process_stack_ops vs. reference effects (O3/O5) + lock-step BFS",
    text="For every opcode and leaf the simulated stack/memo effect equals the reference effect slot by slot (depth, MARK positions, kind classes, memo stores), the argument handed to process_stack_ops is the appended one (key identity), silent-skip branches are shown infeasible; the breadth-first pass compares sim and ref after every transition on reachable states.",
    note="kind level only (values are irrelevant to the property)", ref="4/C17"),
@@ -34,14 +34,14 @@ CLAIMS.update({
    note="emit_and_process / cleanup_for_stop are stubbed as append-only in this rule; that they are append-only is what R06.d/R04.c check on their own leaves", ref="4/C06"),
  "C08": dict(cat="other", tech="must-pass-through / non-interference on the interpreted generate_internal from an unknown entry state + field coverage of reset()",
    text="generate_internal is interpreted from a completely unknown scratch state: every use of output, stack, memo and proto_emitted is preceded by an event clearing it; reset() clears every scratch field; configuration fields are written by no generation, emission, collapse or reset leaf; entry points call generate_internal exactly once and return a copy of the whole buffer; no mutable static/thread-local is reachable; the Python binding forwards generate_from_bytes to the same inner generator.",
-   note="field roles are fixed in analysis/absgen.py (an unknown new field fails closed)", ref="4/C08"),
+   note="known field roles are fixed in analysis/absgen.py; a new scalar/enum/struct/byte-vector field gets a generic abstraction and its role (configuration vs per-pickle state) is inferred from which code writes it (R08.e); other new field types fail closed", ref="4/C08"),
  "C10": dict(cat="proof", tech="guard extraction + who-may-emit over all emission leaves (safe and unsafe) + default/writer rules",
    text="Every enabled leaf of EXT1/2/4 (NEXT_BUFFER/READONLY_BUFFER) has allow_ext_opcodes (allow_buffer_opcodes) materialised true; no emission leaf, unsafe type-confusion rewrite, collapse step or header decodes to one of the five opcodes unless its flag is true; Default/new yield both flags false and only the two builder methods write them; the two CLI flags are forwarded in both modes.",
    note="trusted: clap bool flags default to false", ref="4/C10"),
  "C11": dict(cat="other", tech="structural premises P1-P5 on interpreted leaves + fixed arithmetic lemma",
    text="P1 loop bound term = min + draw<(max-min) (or min), P2 one emit_and_process per counted iteration, P3 every feasible emission leaf (safe/unsafe) decodes to exactly one opcode, P4 net growth <= 1, P5 collapse tail <= items+marks+1; the totals follow by the lemma in DESIGN.md.",
    note="the closing arithmetic lemma is pen-and-paper; choose_index range from C18", ref="4/C11"),
- "C12": dict(cat="other", tech="table completeness + breadth-first witness search over the extracted transition relation",
+ "C12": dict(cat="other", tech="table completeness + breadth-first witness search over the extracted transition relation (retried deeper/wider for pairs missed at the first bound) + written-opcode rule",
    text="Every standard opcode with proto<=P is listed in the protocol-P row; for every (P,k) a choice sequence from the empty stack reaches a state where can_emit(k) holds (witness in evidence); framed and unframed paths exist for P>=4. The existence of a witness seed in a fixed range is not decided (probabilistic).",
    note="necessary condition only: precondition satisfiable on a reachable state", ref="4/C12"),
 })
@@ -52,7 +52,7 @@ CLAIMS.update({
    note="trusted: rand's f64 draw lies in [0,1); arbitrary() yields any value or Err", ref="4/C15"),
  "C16": dict(cat="other", tech="term-shape / interval / charset clauses on the results of every firing mutator path",
    text="Per mutator: XOR with a single bit inside the operand width; boundary tables subset of the documented constants; wrapping/saturating +-1; memo index +-1 (safe) or < 1000 (unsafe); one replaced item in the printable range with unchanged length; prefix / +1..9 items / doubled; type confusion replaces exactly the value-pushing opcodes by one well-formed opcode of another kind and only in unsafe mode; no reachable panic site in any mutator.",
-   note="chars().take(n) prefix semantics trusted; algebraically equivalent rewrites of a term are reported (stated in DESIGN)", ref="4/C16"),
+   note="chars().take(n) prefix semantics trusted; algebraically equivalent rewrites of a term are reported (stated in DESIGN); mutate_string is also interpreted on strings with multi-byte characters (no panic, same clauses)", ref="4/C16"),
  "C18": dict(cat="proof", tech="interpretation of source.rs against five library contracts + interval/relational inclusion",
    text="For every EntropySource method and both entropy sources, every outcome of the library calls (incl. Err on exhausted input): index < n (0 for n=0), range draw in [a,b) (a when a>=b), printable ASCII characters, byte strings of the requested length, no reachable panic (empty-range and a>b calls are guarded), no Result escapes, fixed fallback on exhaustion.",
    note="trusted base = the five rand/arbitrary contracts listed in evidence", ref="4/C18"),
@@ -71,8 +71,8 @@ CLAIMS.update({
 })
 
 CLAIMS.update({
- "C13": dict(cat="other", tech="option-forwarding dataflow by interpreting main() linked with the library on an abstract Cli + sibling agreement + parsers for the non-Rust front ends",
-   text="At every generate() call reached by main() in single-file and batch mode (all Option/flag/IO outcomes, five mutator lists) the generator configuration equals the Cli values field by field: protocol (or seed mod 6), seed, opcode range, unsafe/ext/buffer flags unconditionally, mutator list = library expansion of 'all' and create(kind, unsafe), rate through with_mutation_rate when not inert; batch: index space 0..samples, DIR/<idx>.pkl, errors imply a non-zero exit; MutatorKind::create agrees with the clap value names; PyGenerator methods interpreted (set_opcode_range keeps every other field, constructor forwards protocol/seed, 1:1 forwarding); action-run.sh/action.yml/fuzzer.py parsed against the flag table.",
+ "C13": dict(cat="other", tech="option-forwarding dataflow by interpreting main() linked with the library on an abstract Cli + abstract interpretation of action-run.sh with a clap parse model over the argument table read from the derive MIR + sibling agreement + parsers for action.yml / fuzzer.py",
+   text="At every generate() call reached by main() in single-file and batch mode (all Option/flag/IO outcomes, six mutator lists incl. one out of declaration order with a repeated kind) the generator configuration equals the Cli values field by field: protocol (or seed mod 6), seed, opcode range, unsafe/ext/buffer flags unconditionally, mutator list = library expansion of 'all' and create(kind, unsafe), rate through with_mutation_rate when not inert; batch: index space 0..samples, DIR/<idx>.pkl, errors imply a non-zero exit; MutatorKind::create agrees with the clap value names; PyGenerator methods interpreted (set_opcode_range keeps every other field, constructor forwards protocol/seed, 1:1 forwarding); action-run.sh/action.yml/fuzzer.py parsed against the flag table.",
    note="clap, pyo3, bash, rayon trusted; byte equality then follows from C07/C08", ref="4/C13"),
 })
 
